@@ -183,6 +183,7 @@ PROPS = {
         ],
         "partial": ["analysis_only_adds_failure_partial: proved under 'the analysis succeeds at every attempted level'; without it the statement is false of the code (known finding F10)",
                     "bit-reproducibility of faer and libm across processes is sampled (digest of all results compared between two fresh processes), not proved"],
+        "rule": "planted, linear, contradictory, prioritised and collapsed-guess systems: two calls in one process and two fresh processes (digest) must agree bit for bit including the ordered warnings list; solve vs solve_analysis field by field; plus generated problem texts through the text front-end: solve() twice, solve_with_config, solve_with_config_analysis, solve_no_metadata and the library call on the same constraints and guesses must agree bit for bit (labelled values included)",
         "assumptions": ["faer is built without the rayon feature (extracted from Cargo.toml on this run): sequential linear algebra"],
     },
     "C11": {
